@@ -157,6 +157,8 @@ class SpecEval:
             return self.eng.list_get(self.st, o, idx)
         if o.s[0] == "map":
             return V(o.s[2], z3.Select(o.t, lift(i).t))
+        if o.s[0] == "dict":
+            return self.eng.dict_val(self.st, o, i)
         if o.s[0] == "tuple" and i.s == PY:
             return o.t[i.t]
         if o.s == PY and i.s == PY:
@@ -388,6 +390,8 @@ class SpecEval:
         v = self.eval(node.args[0])
         if v.s[0] == "list":
             return V(INT, self.eng.list_len(self.st, v))
+        if v.s[0] == "dict":
+            return V(INT, self.eng.dict_len(self.st, v))
         lv = lift(v)
         if lv.s == STR:
             return V(INT, z3.Length(lv.t))
@@ -395,15 +399,16 @@ class SpecEval:
             return py(len(v.t))
         raise Unsupported(f"spec: len of {v}")
 
-    def _quant(self, node, exists):
+    def _quant(self, node, exists, sort=INT):
         args = node.args
         lam = args[-1]
         assert isinstance(lam, ast.Lambda)
         names = [a.arg for a in lam.args.args]
-        vars_ = [z3.Int(f"{n}!{next(_fresh)}") for n in names]
+        mk = z3.String if sort == STR else z3.Int
+        vars_ = [mk(f"{n}!{next(_fresh)}") for n in names]
         extra = dict(self.extra)
         for n, v in zip(names, vars_):
-            extra[n] = V(INT, v)
+            extra[n] = V(sort, v)
         sub = SpecEval(self.eng, self.st, self.pre, extra)
         guard = []
         if len(args) == 3:
@@ -428,6 +433,13 @@ class SpecEval:
 
     def c_exists(self, node):
         return self._quant(node, True)
+
+    def c_forall_str(self, node):
+        """forall_str(lambda t: P): the bound variables range over all texts (keys of a dict)"""
+        return self._quant(node, False, STR)
+
+    def c_exists_str(self, node):
+        return self._quant(node, True, STR)
 
     def c_implies(self, node):
         return V(BOOL, z3.Implies(self.boolean(node.args[0]), self.boolean(node.args[1])))
